@@ -139,6 +139,15 @@ impl<'a> SiteWalker<'a> {
                             && obj["optional"] != json!(true)
                             && obj["object"]["optional"] != json!(true);
                         let identifier_path = is_identifier_path(obj);
+                        // `<expression>.prototype.m.call(..)` / `<expression>.m.call(..)` with a base that is not an identifier
+                        // (`h(X).prototype.trim.call(a)`, `o[k].q.trim.apply(a, [])`): the rewriter treats it like a path too;
+                        // the statement only speaks of `X.prototype.m`, so such a site is FREE - but it is a site of `m`
+                        if !identifier_path {
+                            if let Some(entry) = self.cfg.method(method) {
+                                self.push(v, cx, "proto", method, Some(entry.1.clone()), Expect::Free, "prototype-like path with a base that is not an identifier");
+                                return;
+                            }
+                        }
                         if identifier_path {
                             match self.cfg.method(method) {
                                 Some(entry) => {
